@@ -1,11 +1,423 @@
 import SageModel.Proto
+import SageModel.Generated.Consts
+import SageModel.Model.C19
 
-/-! Driver ops for C19 (stub: no ops yet). -/
+/-! Driver ops for C19 (formats: see `harness/src/ops/c19.rs`).
+
+`lfqmap`, and the grid cells of `lfqgrid`, are compared bit-exactly (only `+ - * /`, casts and comparisons
+are involved). Everything downstream of `exp` (gaussian kernel), `acos`, `powf` and, for `lfq` with more
+than one worker, of the concurrent `f64` accumulation, is compared within the relative bound `1e-9`
+(`closeF`): libm may differ in the last ulp between the two toolchains and the parallel sum of `n` cells
+differs by at most `n·2⁻⁵³` relatively; discrete results (keys, peak position) must be identical.
+The float accumulation order under `DashMap`/rayon is modelled (one sequential schedule), not verified.
+-/
 namespace Sage.C19
 open Sage.Proto
 
+/-! ### instantiation at `f32` / `f64` -/
+
+def f32b (n : Nat) : Float32 := Float32.ofBits n.toUInt32
+
+def env32 : Env Float32 :=
+  { ofNat := Float32.ofNat
+    floorNat := fun x => x.floor.toUInt64.toNat
+    zero := 0, one := 1, two := 2
+    million := 1000000, hundred := 100
+    neutron := f32b Sage.Gen.NEUTRON_bits
+    rtTol := f32b Sage.Gen.LFQ_RT_TOL_bits
+    decoyShift := f32b 1093727683   -- 11.06
+    margin := f32b 1036831949       -- 0.1
+    qThr := f32b 1008981770 }       -- 0.01
+
+def maxF64 (a b : Float) : Float := if a.isNaN then b else if b.isNaN then a else if a < b then b else a
+def maxF32 (a b : Float32) : Float32 := if a.isNaN then b else if b.isNaN then a else if a < b then b else a
+
+def env64 : FEnv Float :=
+  { ofNat := Float.ofNat, zero := 0, one := 1, two := 2, half := 0.5
+    pi := Float.ofBits 4614256656552045848
+    third := Float.ofBits 4599616371426034975   -- 0.33
+    sqrt := Float.sqrt, acos := Float.acos, exp := Float.exp, powf := Float.pow, max := maxF64 }
+
+/-- `peptide_isotopes` of a sequence as `(distribution cast to f64, ss_dist)` -/
+def distOf (seq : List UInt8) : List Float32 :=
+  let (cN, sN) := composition seq
+  peptideIsotopes Float32.ofNat Float32.exp maxF32 0 1 (f32b 1010055512) (f32b 1006176620) (f32b 1026832728) cN sN
+
+def distPair (d : List Float32) : List Float × Float :=
+  (d.map Float32.toFloat, ((d.map fun x => x * x).foldl (· + ·) (0 : Float32)).sqrt.toFloat)
+
+/-! ### parsing -/
+
+def pFeat : P (Feat Float32) := do
+  let pep ← nat; let label ← int; let q ← f32; let rt ← f32; let cm ← f32
+  let z ← nat; let file ← nat; let ims ← f32
+  pure { peptide := pep, label := label, peptideQ := q, alignedRt := rt, calcmass := cm, charge := z, fileId := file, ims := ims }
+
+structure World where
+  withMob : Bool
+  st : Settings Float32 Float
+  zLo : Nat
+  zHi : Nat
+  peptides : List (List UInt8)
+  feats : List (Feat Float32)
+  aligns : List (Align Float32)
+  spectra : List (Spectrum Float32)
+
+def pWorld : P World := do
+  let withMob ← bool
+  let combine ← bool
+  let scoring ← nat
+  let sum ← bool
+  let sa ← f64
+  let ppm ← f32
+  let mob ← f32
+  let zLo ← nat
+  let zHi ← nat
+  let peptides ← list bytes
+  let feats ← list pFeat
+  let aligns ← list (do let a ← f32; let b ← f32; let c ← f32; pure ({ maxRt := a, slope := b, intercept := c } : Align Float32))
+  let spectra ← list (do
+    let file ← nat
+    let t ← f32
+    let peaks ← list (do let m ← f32; let i ← f32; let mo ← f32; pure ({ mass := m, intensity := i, mobility := mo } : Peak Float32))
+    pure ({ fileId := file, scanStart := t, peaks := peaks } : Spectrum Float32))
+  let sc : Scoring := match scoring with
+    | 0 => .retentionTime | 1 => .spectralAngle | 2 => .intensity | _ => .hybrid
+  pure { withMob := withMob,
+         st := { scoring := sc, sum := sum, spectralAngle := sa, ppm := ppm, mobPct := mob, combine := combine },
+         zLo := zLo, zHi := zHi, peptides := peptides, feats := feats, aligns := aligns, spectra := spectra }
+
+/-- one reported row -/
+structure Row where
+  pep : Nat
+  charge : Nat
+  decoy : Bool
+  rt : Nat
+  score : Float
+  angle : Float
+  areas : List Float
+
+def pRows : P (List Row) := list (do
+  let pep ← nat; let z ← nat; let d ← bool; let rt ← nat; let s ← f64; let a ← f64
+  let areas ← list f64
+  pure { pep := pep, charge := z, decoy := d, rt := rt, score := s, angle := a, areas := areas })
+
+def outRows (rows : List Row) : String :=
+  outList (fun r => " ".intercalate
+    [toString r.pep, toString r.charge, outBool r.decoy, toString r.rt, outF64 r.score, outF64 r.angle,
+     outList outF64 r.areas]) rows
+
+/-! ### running the model -/
+
+def keyLt (a b : Row) : Bool :=
+  a.pep < b.pep || (a.pep == b.pep && (a.charge < b.charge || (a.charge == b.charge && (!a.decoy && b.decoy))))
+
+def featureMap (w : World) (bin : Nat) : FeatureMap Float32 :=
+  let fm := buildFeatureMapB (if bin = 0 then binSize else bin) env32 w.st.ppm w.st.mobPct w.zLo w.zHi w.feats
+  fm
+
+/-- the model's result for a world: `none` = panic -/
+def runModel (w : World) (bin : Nat) : Option (List Row) :=
+  let fm := featureMap w bin
+  let dists := (w.peptides.map fun s => distPair (distOf s)).toArray
+  let dist := fun p => dists.getD p ([], 0)
+  match quantify env32 env64 Float32.toFloat binSearchFrom w.st w.withMob fm dist w.aligns w.spectra with
+  | none => none
+  | some rs =>
+    let rows := rs.map fun (k, r) =>
+      ({ pep := k.peptide, charge := k.charge, decoy := k.decoy, rt := r.rt, score := r.score,
+         angle := r.spectralAngle, areas := r.areas } : Row)
+    some (rows.mergeSort (fun a b => keyLt a b || !(keyLt b a)))
+
+/-! ### comparison -/
+
+def closeF (a b : Float) : Bool :=
+  a.toBits == b.toBits || (a.isNaN && b.isNaN) ||
+  (a.isFinite && b.isFinite && (a - b).abs ≤ 1e-9 * maxF64 a.abs b.abs)
+
+def closeL (a b : List Float) : Bool :=
+  a.length == b.length && (List.zip a b).all (fun p => closeF p.1 p.2)
+
+def rowClose (a b : Row) : Bool :=
+  a.pep == b.pep && a.charge == b.charge && a.decoy == b.decoy && a.rt == b.rt &&
+  closeF a.score b.score && closeF a.angle b.angle && closeL a.areas b.areas
+
+def rowsClose (a b : List Row) : Bool :=
+  a.length == b.length && (List.zip a b).all (fun p => rowClose p.1 p.2)
+
+def rowExact (a b : Row) : Bool :=
+  a.pep == b.pep && a.charge == b.charge && a.decoy == b.decoy && a.rt == b.rt &&
+  a.score.toBits == b.score.toBits && a.angle.toBits == b.angle.toBits &&
+  a.areas.map Float.toBits == b.areas.map Float.toBits
+
+def rowsExact (a b : List Row) : Bool :=
+  a.length == b.length && (List.zip a b).all (fun p => rowExact p.1 p.2)
+
+/-! ### spec clauses on the implementation's rows -/
+
+def first? (l : List (Option String)) : Option String := l.findSome? id
+
+/-- (history: before repair 98eb8cd) the largest negative area the f32 rounding of `add_entry`'s UNCLAMPED interpolation
+    weight could explain; both clauses are real violations now: the weight is off
+    by a few ulp(rt)/rt_step <= 4e-3, kernel weights and isotope abundances are <= 1, so no area can be below
+    `-4e-3 * (sum of all intensities)`. Negative areas inside this allowance get their own (narrow) clause
+    `bad:negative_area_interp_rounding`; anything else negative or non-finite is `bad:negative_or_nonfinite`. -/
+def roundingAllowance (w : World) : Float :=
+  4e-3 * (w.spectra.foldl (fun acc s => s.peaks.foldl (fun a p => a + p.intensity.toFloat.abs) acc) 0)
+
+/-- (d) finite, non-negative, one area per file; keys only of confident targets at searched charges -/
+def rowsWellFormed (w : World) (rows : List Row) : Option String :=
+  let conf := (w.feats.filter (confident env32)).map (·.peptide)
+  first? (rows.map fun r =>
+    if r.areas.length != w.aligns.length then some "bad:area_count"
+    else if r.areas.any (fun a => !a.isFinite || a < -(roundingAllowance w)) then some "bad:negative_or_nonfinite"
+    else if r.areas.any (fun a => a < 0) then some "bad:negative_area_interp_rounding"
+    else if !conf.contains r.pep then some "bad:unconfident_reported"
+    else if w.st.combine && r.charge != 0 then some "bad:charge_not_combined"
+    else if !w.st.combine && (r.charge < w.zLo || r.charge > w.zHi) then some "bad:charge_not_searched"
+    else none)
+
+/-- keys that have at least one in-window peak, by the naive scan over all (peak, range) pairs -/
+def signalKeys (w : World) : List Key :=
+  let ranges := allRanges env32 w.st.ppm w.st.mobPct w.zLo w.zHi w.feats
+  (w.spectra.flatMap fun s =>
+    match w.aligns[s.fileId]? with
+    | none => []
+    | some a =>
+      let rt := alignedRt a s
+      s.peaks.flatMap fun pk =>
+        (ranges.filter fun r =>
+          inWindow (rt - env32.rtTol) (rt + env32.rtTol) pk.mass r && (!w.withMob || mobOk pk.mobility r)).map
+          (keyOf w.st.combine)).eraseDups
+
+def rowsHaveSignal (w : World) (rows : List Row) : Option String :=
+  let ks := signalKeys w
+  if rows.all (fun r => ks.contains { peptide := r.pep, charge := r.charge, decoy := r.decoy }) then none
+  else some "bad:reported_without_signal"
+
+def peakEq (a b : Peak Float32) : Bool :=
+  a.mass.toBits == b.mass.toBits && a.intensity.toBits == b.intensity.toBits && a.mobility.toBits == b.mobility.toBits
+
+def alignEq (a b : Align Float32) : Bool :=
+  a.maxRt.toBits == b.maxRt.toBits && a.slope.toBits == b.slope.toBits && a.intercept.toBits == b.intercept.toBits
+
+def listEq {γ : Type} (eq : γ → γ → Bool) (a b : List γ) : Bool :=
+  a.length == b.length && (List.zip a b).all (fun p => eq p.1 p.2)
+
+def spectrumEq (a b : Spectrum Float32) : Bool :=
+  a.fileId == b.fileId && a.scanStart.toBits == b.scanStart.toBits && listEq peakEq a.peaks b.peaks
+
+def featEq (a b : Feat Float32) : Bool :=
+  a.peptide == b.peptide && a.label == b.label && a.peptideQ.toBits == b.peptideQ.toBits &&
+  a.alignedRt.toBits == b.alignedRt.toBits && a.calcmass.toBits == b.calcmass.toBits && a.charge == b.charge &&
+  a.fileId == b.fileId && a.ims.toBits == b.ims.toBits
+
+/-- is file `j` file `i` with exactly doubled intensities (same scans in the same relative order, same alignment)? -/
+def isDouble (w : World) (i j : Nat) : Bool :=
+  let si := w.spectra.filter (·.fileId == i)
+  let sj := w.spectra.filter (·.fileId == j)
+  match w.aligns[i]?, w.aligns[j]? with
+  | some a, some b =>
+    alignEq a b && !si.isEmpty &&
+    listEq (fun (x y : Spectrum Float32) => x.scanStart.toBits == y.scanStart.toBits &&
+      listEq (fun (p q : Peak Float32) => p.mass.toBits == q.mass.toBits && p.mobility.toBits == q.mobility.toBits &&
+        (2 * p.intensity).toBits == q.intensity.toBits && (2 * p.intensity).isFinite) x.peaks y.peaks) si sj
+  | _, _ => false
+
+/-- (b) a file with exactly twice the intensities gets exactly twice the area (single worker) /
+    twice within the summation bound (several workers) -/
+def doublingOk (w : World) (rows : List Row) (exact : Bool) : Option String :=
+  let n := w.aligns.length
+  let pairs := (List.range n).flatMap fun i => ((List.range n).filter fun j => i != j && isDouble w i j).map fun j => (i, j)
+  if pairs.all (fun (i, j) => rows.all fun r =>
+      let a := r.areas.getD i 0
+      let b := r.areas.getD j 0
+      if exact then (2 * a).toBits == b.toBits else closeF (2 * a) b) then none
+  else some "bad:not_doubled"
+
+def hasDoubling (w : World) : Bool :=
+  let n := w.aligns.length
+  (List.range n).any fun i => (List.range n).any fun j => i != j && isDouble w i j
+
+/-! ### canonical form of a feature map -/
+
+def rangeToks (r : Range Float32) : List Nat :=
+  [r.rt.toBits.toNat, r.massLo.toBits.toNat, r.massHi.toBits.toNat, r.mobLo.toBits.toNat, r.mobHi.toBits.toNat,
+   r.charge, r.isotope, r.peptide, r.fileId, if r.decoy then 1 else 0]
+
+def lexLe : List Nat → List Nat → Bool
+  | [], _ => true
+  | _ :: _, [] => false
+  | a :: as, b :: bs => a < b || (a == b && lexLe as bs)
+
+def pRange : P (Range Float32) := do
+  let rt ← f32; let lo ← f32; let hi ← f32; let ml ← f32; let mh ← f32
+  let z ← nat; let iso ← nat; let pep ← nat; let file ← nat; let d ← bool
+  pure { rt := rt, massLo := lo, massHi := hi, mobLo := ml, mobHi := mh, charge := z, isotope := iso,
+         peptide := pep, fileId := file, decoy := d }
+
+/-- the index invariant the lookup relies on, checked on a concrete map -/
+def mapInvOk (fm : FeatureMap Float32) : Bool :=
+  let b := fm.binSize
+  let n := fm.minRts.size
+  b > 0 && fm.ranges.length ≤ n * b && (fm.ranges.length + b > n * b || fm.ranges.isEmpty) &&
+  (List.range n).all fun p =>
+    let s := pageSlice fm.ranges b p
+    let m := fm.minRts.getD p 0
+    s.all (fun r => m ≤ r.rt) && s.any (fun r => r.rt.toBits == m.toBits) &&
+    (match fm.minRts[p+1]? with
+     | some m' => s.all (fun r => r.rt ≤ m')
+     | none => true) &&
+    (List.zip s (s.drop 1)).all (fun q => q.1.massLo ≤ q.2.massLo)
+
+/-! ### ops -/
+
 def handle (op : String) (args impl : List String) : Option Reply :=
   match op with
+  | "lfqmap" => do
+    let (ppm, mob, zLo, zHi, fs) ← run (do
+      let ppm ← f32; let mob ← f32; let zLo ← nat; let zHi ← nat; let fs ← list pFeat
+      pure (ppm, mob, zLo, zHi, fs)) args
+    let fm := buildFeatureMap env32 ppm mob zLo zHi fs
+    let canon (rs : List (Range Float32)) := (rs.map rangeToks).mergeSort lexLe
+    let model := outList (fun r => " ".intercalate (rangeToks r |>.map toString)) fm.ranges ++ " " ++
+      outList outF32 fm.minRts.toList ++ " " ++ toString fm.binSize
+    match run (do let rs ← list pRange; let ms ← list f32; let b ← nat; pure (rs, ms, b)) impl with
+    | none => pure { model := model, agree := false, spec := "na" }
+    | some (irs, ims, ib) =>
+      let ifm : FeatureMap Float32 := { ranges := irs, minRts := ims.toArray, binSize := ib }
+      -- order among rt / mass_lo ties is not fixed by the code (unstable sorts): compare as multisets
+      let agree := canon irs == canon fm.ranges && ims.map Float32.toBits == fm.minRts.toList.map Float32.toBits &&
+        ib == fm.binSize
+      let conf := (fs.filter (confident env32))
+      let nConf := (conf.map (·.peptide)).eraseDups.length
+      let spec :=
+        if irs.any (fun r => !(conf.any fun f => f.peptide == r.peptide)) then "bad:unconfident_range"
+        -- the property text fixes THREE isotopologues (literal 3, not the regenerated constant)
+        else if irs.any (fun r => r.charge < zLo || r.charge > zHi || r.isotope ≥ 3) then "bad:charge_or_isotope"
+        else if irs.length != nConf * (zHi + 1 - zLo) * 3 * 2 then "bad:range_count"
+        else if !mapInvOk ifm then "bad:index_invariant"
+        else "ok"
+      pure { model := model, agree := agree, spec := spec }
+  | "lfqgrid" => do
+    let (refRt, refFile, files, d, scoring, sum, sa, adds) ← run (do
+      let refRt ← f32; let refFile ← nat; let files ← nat
+      let d0 ← f32; let d1 ← f32; let d2 ← f32
+      let scoring ← nat; let sum ← bool; let sa ← f64
+      let adds ← list (do let rt ← f32; let iso ← nat; let file ← nat; let x ← f32; pure (rt, iso, file, x))
+      pure (refRt, refFile, files, [d0, d1, d2], scoring, sum, sa, adds)) args
+    -- the code panics on a row index outside the matrix
+    if adds.any (fun a => a.2.2.1 ≥ files || a.2.1 ≥ nIso) || refFile ≥ files then
+      pure (exact "panic" (" ".intercalate impl) "na")
+    else
+    let g0 : Grid Float32 Float := Grid.new env32 0 refRt refFile files
+    let g := adds.foldl (fun g a => g.addEntry env32 Float32.toFloat a.1 a.2.1 a.2.2.1 a.2.2.2) g0
+    let dp := distPair d
+    let tr := summarize env64 g dp.1 dp.2
+    let sc : Scoring := match scoring with
+      | 0 => .retentionTime | 1 => .spectralAngle | 2 => .intensity | _ => .hybrid
+    let integ := integrate env64 g.cols tr sc sum sa
+    let outInt := match integ with
+      | none => "0"
+      | some r => s!"1 {r.rt} {outF64 r.score} {outF64 r.spectralAngle} {outList outF64 r.areas}"
+    let model := outList outF64 g.cells.toList ++ " " ++ outList outF64 tr.dot.flatten ++ " " ++
+      outList outF64 tr.angle.flatten ++ " " ++ outInt
+    match run (do
+        let cells ← list f64; let dot ← list f64; let ang ← list f64
+        let r ← opt (do let rt ← nat; let s ← f64; let a ← f64; let ar ← list f64; pure (rt, s, a, ar))
+        pure (cells, dot, ang, r)) impl with
+    | none => pure { model := model, agree := false, spec := "na" }
+    | some (ic, idot, iang, ir) =>
+      let agree := ic.map Float.toBits == g.cells.toList.map Float.toBits &&   -- cells: bit-exact
+        closeL idot tr.dot.flatten && closeL iang tr.angle.flatten &&
+        (match ir, integ with
+         | none, none => true
+         | some (rt, s, a, ar), some r => rt == r.rt && closeF s r.score && closeF a r.spectralAngle && closeL ar r.areas
+         | _, _ => false)
+      -- the non-negativity claim is about what `quantify` feeds the grid: intensities >= 0 and spectra that passed
+      -- the window test of `mass_lookup` (`range.rt <= rt + RT_TOL && range.rt >= rt - RT_TOL`, in f32)
+      let pos := adds.all (fun a => a.2.2.2 ≥ 0 &&
+        decide (refRt ≤ a.1 + env32.rtTol) && decide (a.1 - env32.rtTol ≤ refRt))
+      let spec :=
+        if !pos then "na"
+        else match ir with
+          | some (_, _, _, ar) =>
+            let allow := 4e-3 * adds.foldl (fun acc a => acc + a.2.2.2.toFloat.abs) 0
+            if ar.any (fun a => !a.isFinite || a < -allow) then "bad:negative_or_nonfinite"
+            else if ar.any (fun a => a < 0) then "bad:negative_area_interp_rounding" else "ok"
+          | none => "ok"
+      pure { model := model, agree := agree, spec := spec }
+  | "lfq" => do
+    let (threads, bin, w) ← run (do let th ← list nat; let bin ← nat; let w ← pWorld; pure (th, bin, w)) args
+    let m := runModel w bin
+    match m with
+    | none => pure (exact "panic" (" ".intercalate impl) "na")
+    | some rows =>
+      let model := " ".intercalate (threads.map fun _ => outRows rows)
+      match run (listN pRows threads.length) impl with
+      | none => pure { model := model, agree := false, spec := "na" }
+      | some irs =>
+        let agree := irs.all (fun ir => rowsClose ir rows)
+        let spec : String :=
+          match first? (irs.map (rowsWellFormed w)) with
+          | some s => s
+          | none =>
+          match first? (irs.map (rowsHaveSignal w)) with
+          | some s => s
+          | none =>
+          match first? ((List.zip threads irs).map fun (n, ir) => doublingOk w ir (n ≤ 1)) with
+          | some s => s
+          | none =>
+            match irs with
+            | [] => "ok"
+            | r0 :: rest => if rest.all (fun r => rowsClose r0 r) then "ok" else "bad:thread_dependent"
+        pure { model := model, agree := agree, spec := spec }
+  | "lfq2" => do
+    let (kind, perm, bin, a, b) ← run (do
+      let kind ← nat; let perm ← list nat; let bin ← nat; let a ← pWorld; let b ← pWorld
+      pure (kind, perm, bin, a, b)) args
+    match runModel a bin, runModel b bin with
+    | some ra, some rb =>
+      let model := outRows ra ++ " " ++ outRows rb
+      match run (do let x ← pRows; let y ← pRows; pure (x, y)) impl with
+      | none => pure { model := model, agree := false, spec := "na" }
+      | some (ia, ib) =>
+        let agree := rowsClose ia ra && rowsClose ib rb
+        let wf := first? [rowsWellFormed a ia, rowsWellFormed b ib, rowsHaveSignal a ia, rowsHaveSignal b ib]
+        let spec : String :=
+          match wf with
+          | some s => s
+          | none =>
+          if kind == 0 then
+            -- (a) B differs from A only by signal the property calls irrelevant: PSMs that are not confident
+            -- targets, peaks outside every window. Checked here, not assumed.
+            let ranges := allRanges env32 a.st.ppm a.st.mobPct a.zLo a.zHi a.feats
+            let related :=
+              listEq featEq (a.feats.filter (confident env32)) (b.feats.filter (confident env32)) &&
+              listEq alignEq a.aligns b.aligns && a.withMob == b.withMob && a.zLo == b.zLo && a.zHi == b.zHi &&
+              listEq spectrumEq (relevantPart env32 a.withMob ranges a.aligns a.spectra)
+                                (relevantPart env32 b.withMob ranges b.aligns b.spectra)
+            if !related then "na"
+            else if rowsExact ia ib then "ok" else "bad:outside_window_changed"
+          else
+            -- (c) B is A with file i renamed perm[i]
+            let n := a.aligns.length
+            let okPerm := perm.length == n && perm.all (· < n) && perm.eraseDups.length == n
+            let pf := fun i => perm.getD i 0
+            let related := okPerm &&
+              listEq featEq (a.feats.map fun f => { f with fileId := pf f.fileId }) b.feats &&
+              listEq spectrumEq (a.spectra.map fun s => { s with fileId := pf s.fileId }) b.spectra &&
+              b.aligns.length == n &&
+              (List.range n).all (fun i => match a.aligns[i]?, b.aligns[pf i]? with
+                | some x, some y => alignEq x y
+                | _, _ => false)
+            if !related then "na"
+            else if ia.length == ib.length && (List.zip ia ib).all (fun (x, y) =>
+                x.pep == y.pep && x.charge == y.charge && x.decoy == y.decoy && x.rt == y.rt &&
+                (List.range n).all (fun i => closeF (x.areas.getD i 0) (y.areas.getD (pf i) 0))) then "ok"
+            else "bad:columns_do_not_follow"
+        pure { model := model, agree := agree, spec := spec }
+    | _, _ => pure (exact "panic" (" ".intercalate impl) "na")
   | _ => none
 
 end Sage.C19
